@@ -113,8 +113,10 @@ fn any_specified_addr() -> SocketAddrV4 {
 }
 
 //@ ob: C09.O1
+//@ rss: 8.2
+//@ time: 145
 //@ tier: quick
-//@ cap: 900
+//@ cap: 800
 //@ standins: tracing
 //@ desc: one outstanding request (symbolic destination, symbolic starting tid): a symbolic message (tid', from') is accepted only if tid' is the outstanding tid and from' equals the destination (ip and port); a rejected message leaves the request answerable: the genuine reply is accepted afterwards, and its duplicate is not
 //@ bounds: 1 outstanding request; all tids < 2^32-8, all address pairs (destination not 0.0.0.0: see C09.K1); clock fixed (expiry is C09.O4); unwind 6
@@ -151,8 +153,10 @@ fn c09_o1_one_request() {
 }
 
 //@ ob: C09.O2
+//@ rss: 8.4
+//@ time: 157
 //@ tier: quick
-//@ cap: 900
+//@ cap: 800
 //@ standins: tracing
 //@ desc: two outstanding requests: a symbolic message is accepted only for the request whose tid and address it carries, removes nothing else, and both genuine replies are still accepted afterwards
 //@ bounds: 2 outstanding requests (first destination concrete, second symbolic), symbolic injected tid and source; unwind 7
@@ -228,8 +232,10 @@ fn c09_o2c_three_requests() {
 }
 
 //@ ob: C09.O4
+//@ rss: 0.4
+//@ time: 17
 //@ tier: quick
-//@ cap: 900
+//@ cap: 800
 //@ standins: tracing
 //@ desc: expiry: a reply (right tid, right address) arriving at or after sent_at + request timeout is rejected; one arriving before is accepted; a late spoof does not resurrect anything
 //@ bounds: 1 outstanding request sent at symbolic t0, reply at t0+dt, whole seconds (timeout 500 ms so dt=0 is in time, dt>=1 is late); unwind 6
@@ -259,7 +265,7 @@ fn c09_o4_expired_reply_rejected() {
 
 //@ ob: C09.O5
 //@ tier: quick
-//@ cap: 1500
+//@ cap: 800
 //@ standins: tracing
 //@ also: C06
 //@ desc: expiry with the adaptive timeout and the REAL round-trip estimator: from a state with a non-trivial RTT estimate and deviation (what earlier slow replies leave), a reply with the right tid from the right address is accepted iff it arrives before estimated_rtt + 4 * deviation_rtt as in force when it arrives -- exactly when socket.inflight(tid) still reported the request in flight; the reply's own RTT sample cannot extend its own deadline
@@ -296,8 +302,10 @@ fn c09_o5_adaptive_timeout_expiry() {
 }
 
 //@ ob: C09.K1
+//@ rss: 0.5
+//@ time: 11
 //@ tier: quick
-//@ cap: 900
+//@ cap: 800
 //@ standins: tracing
 //@ desc: a request addressed to ANY destination (including 0.0.0.0:p) is answered only from exactly that address
 //@ bounds: 1 outstanding request, all destinations including the unspecified IP; unwind 6
@@ -322,8 +330,10 @@ fn c09_k1_unspecified_destination() {
 }
 
 //@ ob: C06.O1
+//@ rss: 1.9
+//@ time: 55
 //@ tier: quick
-//@ cap: 1200
+//@ cap: 800
 //@ standins: tracing
 //@ also: C20
 //@ desc: expiry is unconditional: with two outstanding requests and one intervening operation (another add, a remove of a symbolic tid, or cleanup at full capacity), a request sent at t is reported in flight at t' iff it was not removed and t' - t < timeout; cleanup() at full capacity drops only expired requests and keeps the order
@@ -387,8 +397,10 @@ fn c06_o1_expiry_unconditional() {
 }
 
 //@ ob: C18.O3
+//@ rss: 0.4
+//@ time: 12
 //@ tier: quick
-//@ cap: 900
+//@ cap: 800
 //@ standins: tracing
 //@ desc: every outgoing request and reply carries read_only = !server_mode (client mode marks its messages read-only, server mode does not), with the version and, on replies, the requester address
 //@ bounds: symbolic server_mode, tid, address; unwind 6
